@@ -1,33 +1,41 @@
-(** C04 - valid input never panics, in release and debug-assertion builds.
-    FULL STATEMENT (not yet proved):  forall c b f i fr e, cfg_ok c -> valid_inputb i fr e = true ->
-      exists bits, parse_float c TABLES BTABLES LIMITS f b i fr e = Ok bits.
-    PROVED so far (closed by [exact]; proofs in proofs/ParseFacts.v, proofs/NoUB.v,
-    proofs/BigintFacts2.v): the first stage never panics and is independent of the build mode;
-    the whole parser never reaches an unchecked access ([UB]); shifts, bit length, top-bit
-    extraction never panic on in-range operands.  The remaining stages are covered by the
-    correspondence harness in release and debug-assertion+overflow-check builds. *)
+(** C04 - valid input never panics, in release and debug-assertion builds.  PROVED END TO END: [C04_no_panic] - for every build mode b (the model makes every overflow check, debug assertion, unwrap, index and the 62-limb capacity an explicit Panic outcome) parse_float returns Ok; it is a corollary of the correctness theorem.
+    Domain and premise as in props/C01.v: [in_domain] = valid_inputb and at most 2^28 digits, every i32
+    exponent; [deep_ok] is vacuous for the compact configurations and the single residual premise for
+    the Eisel-Lemire ones (see props/C01.v).  Closed by [exact]; the model is tied to /repo by the
+    correspondence harness on every run. *)
 
-From Coq Require Import ZArith QArith List Bool.
-From ML Require Import base.RustSem model.Fmt model.Number model.Parse model.Top model.Vec model.Bigint spec.Decimal spec.Round spec.RneZ spec.RneBridge
-  gen.Consts gen.Tables gen.BTables gen.PowDump proofs.LimbVal proofs.ParseFacts proofs.Glue proofs.NoUB proofs.BigintFacts2 proofs.FastPathFacts proofs.EndToEnd proofs.TableFacts.
+From Coq Require Import ZArith QArith Qabs List Bool Reals Qreals.
+From Coq Require Import Floats.SpecFloat.
+From Flocq Require Import Core.Core.
+From ML Require Import base.RustSem model.Fmt model.Num model.Number model.Parse model.Lemire model.Bellerophon model.Top
+  spec.Decimal spec.Round spec.RoundFacts spec.DigitsSuffice gen.Consts gen.Tables gen.BTables gen.PowDump
+  proofs.ParseFacts proofs.FastPathFacts proofs.EndToEnd proofs.EndToEnd2 proofs.EndToEnd3 proofs.EndToEnd4 proofs.EndToEnd5 proofs.EndToEnd6 proofs.EndToEnd7
+  proofs.LemireFacts6 proofs.Glue.
 Import ListNotations.
 
 Open Scope Z_scope.
+
+Theorem C04_C04_no_panic :
+  forall (c : config) (f : format) (b : build) (i fr : list Z) (e : Z),
+         In c ALL_CONFIGS ->
+         f = F32 \/ f = F64 ->
+         in_domain i fr e -> deep_ok c f b i fr e -> exists bits : Z, PF c f b i fr e = Ok bits.
+Proof. exact C04_no_panic. Qed.
+
+Theorem C04_parse_float_correct :
+  forall (c : config) (f : format) (b : build) (i fr : list Z) (e : Z),
+         In c ALL_CONFIGS ->
+         f = F32 \/ f = F64 ->
+         valid_inputb i fr e = true ->
+         zlen i + zlen fr <= 2 ^ 28 ->
+         (compact c = false -> no_deep_fallback_at f b (parse_spec i fr e)) ->
+         PF c f b i fr e = Ok (RN f (dec_value i fr e)).
+Proof. exact parse_float_correct. Qed.
 
 Theorem C04_parse_number_no_panic :
   forall (b : build) (i f : list Z) (e : Z),
          valid_inputb i f e = true -> is_ok (parse_number b i f e) = true.
 Proof. exact parse_number_no_panic. Qed.
-
-Theorem C04_parse_number_build_indep :
-  forall (b1 b2 : build) (i f : list Z) (e : Z),
-         valid_inputb i f e = true -> parse_number b1 i f e = parse_number b2 i f e.
-Proof. exact parse_number_build_indep. Qed.
-
-Theorem C04_parse_number_exact :
-  forall (b : build) (i f : list Z) (e : Z),
-         valid_inputb i f e = true -> parse_number b i f e = Ok (parse_spec i f e).
-Proof. exact parse_number_exact. Qed.
 
 Theorem C04_try_fast_path_no_panic_shipped :
   forall (c : config) (f : format) (b : build) (n : number),
@@ -37,78 +45,8 @@ Theorem C04_try_fast_path_no_panic_shipped :
          - 2 ^ 31 <= nexp n < 2 ^ 31 -> exists r : option Z, try_fast_path c TABLES f b n = Ok r.
 Proof. exact try_fast_path_no_panic_shipped. Qed.
 
-Theorem C04_fast_class_no_panic :
-  forall (c : config) (f : format) (b : build) (BT : btables) (L : limits) (i fr : list Z) (e : Z),
-         In c ALL_CONFIGS ->
-         f = F32 \/ f = F64 ->
-         fast_class f i fr e -> exists bits : Z, parse_float c TABLES BT L f b i fr e = Ok bits.
-Proof. exact fast_class_no_panic. Qed.
 
-Theorem C04_parse_float_float_or_panic :
-  forall (c : config) (T : tables) (BT : btables) (L : limits) (f : format) 
-           (b : build) (i fr : list Z) (e : Z),
-         ub_params_ok c T f = true ->
-         (exists v : Z, parse_float c T BT L f b i fr e = Ok v) \/
-         (exists p : panic_kind, parse_float c T BT L f b i fr e = Panic p).
-Proof. exact parse_float_float_or_panic. Qed.
-
-Theorem C04_shl_no_panic :
-  forall (c : config) (L : limits) (b : build) (v : vec) (n : Z),
-         LIMB_BITS L = 64 ->
-         0 <= n < 2 ^ 64 ->
-         zlen (vl v) < 2 ^ 63 -> limbs_ok (vl v) -> exists o : option vec, shl c L b v n = Ok o.
-Proof. exact shl_no_panic. Qed.
-
-Theorem C04_shl_bits_no_panic :
-  forall (c : config) (L : limits) (b : build) (v : vec) (n : Z),
-         LIMB_BITS L = 64 -> 0 < n < 64 -> limbs_ok (vl v) -> exists o : option vec, shl_bits c L b v n = Ok o.
-Proof. exact shl_bits_no_panic. Qed.
-
-Theorem C04_shl_limbs_no_panic :
-  forall (b : build) (v : vec) (n : Z),
-         0 < n -> n + zlen (vl v) < 2 ^ 64 -> exists o : option vec, shl_limbs b v n = Ok o.
-Proof. exact shl_limbs_no_panic. Qed.
-
-Theorem C04_bit_length_spec :
-  forall (L : limits) (b : build) (l : list Z),
-         LIMB_BITS L = 64 ->
-         limbs_ok l ->
-         l <> [] ->
-         is_normalized l = true ->
-         zlen l < 2 ^ 26 ->
-         exists n : Z,
-           bit_length L b l = Ok n /\
-           0 < n /\
-           2 ^ (n - 1) <= lval l < 2 ^ n /\
-           n = Z.log2 (lval l) + 1 /\ n = bitlen (lval l) /\ 64 * (zlen l - 1) < n <= 64 * zlen l.
-Proof. exact bit_length_spec. Qed.
-
-Theorem C04_hi64_spec :
-  forall (b : build) (l : list Z),
-         limbs_ok l ->
-         l <> [] -> is_normalized l = true -> zlen l < 2 ^ 64 -> hi64 b l = Ok (hi64_val (lval l)).
-Proof. exact hi64_spec. Qed.
-
-Theorem C04_from_u64_spec :
-  forall (c : config) (L : limits) (b : build) (x : Z),
-         0 <= x < 2 ^ 64 ->
-         2 <= BIGINT_LIMBS L ->
-         exists v : vec,
-           from_u64 c L b x = Ok v /\
-           vl v = (if x =? 0 then [] else [x]) /\
-           lval (vl v) = x /\ limbs_ok (vl v) /\ is_normalized (vl v) = true /\ vcap v = BIGINT_LIMBS L.
-Proof. exact from_u64_spec. Qed.
-
-
+Print Assumptions C04_C04_no_panic.
+Print Assumptions C04_parse_float_correct.
 Print Assumptions C04_parse_number_no_panic.
-Print Assumptions C04_parse_number_build_indep.
-Print Assumptions C04_parse_number_exact.
 Print Assumptions C04_try_fast_path_no_panic_shipped.
-Print Assumptions C04_fast_class_no_panic.
-Print Assumptions C04_parse_float_float_or_panic.
-Print Assumptions C04_shl_no_panic.
-Print Assumptions C04_shl_bits_no_panic.
-Print Assumptions C04_shl_limbs_no_panic.
-Print Assumptions C04_bit_length_spec.
-Print Assumptions C04_hi64_spec.
-Print Assumptions C04_from_u64_spec.
